@@ -39,6 +39,7 @@ CONSTANTS Adders,       \* tasks that call Add
           GrowBy,       \* slots added by one extension
           MaxExtra,     \* saturation limit of the in-memory amount
           MaxCell,      \* saturation limit of the persisted value
+          WarmCell,     \* persisted value of a warm counter at the start (MaxCell - 1: about to saturate)
           FixF3,        \* repair: Add never takes the lock while readers are in flight
           FixF15        \* repair: releaseLock always looks the pointer up after setting havePtr
 
@@ -112,11 +113,11 @@ Mcap0 == [m \in 1..MaxMaps |-> IF m = 1 /\ InitOpen THEN Capacity ELSE 0]
 Nmaps0 == IF InitOpen THEN 1 ELSE 0
 Used0 == [f \in Files |-> 0]
 Recs0 == [f \in Files |-> IF f = 1 /\ InitOpen THEN Warm ELSE {}]
-Cell0 == [f \in Files |-> [c \in Counters |-> IF f = 1 /\ InitOpen /\ c \in Warm THEN 1 ELSE 0]]
+Cell0 == [f \in Files |-> [c \in Counters |-> IF f = 1 /\ InitOpen /\ c \in Warm THEN WarmCell ELSE 0]]
 Fspan0 == IF InitOpen THEN 1 ELSE 0
 Stk0 == [t \in Tasks |-> <<[Frame("T_start", IF t \in Adders THEN CtrOf[t] ELSE NoC) EXCEPT !.left = IF t \in Adders THEN NAdds[t] ELSE 0]>>]
 Rv0 == [t \in Tasks |-> 0]
-Begun0 == [c \in Counters |-> IF InitOpen /\ c \in Warm THEN 1 ELSE 0]
+Begun0 == [c \in Counters |-> IF InitOpen /\ c \in Warm THEN WarmCell ELSE 0]
 ClosedBy0 == [m \in 1..MaxMaps |-> "none"]
 
 Init ==
@@ -472,7 +473,8 @@ AllReturned == \A t \in Tasks : TaskDone(t)
 NoFault == faults = {}
 (* at every instant: persisted + pending never exceeds the increments begun *)
 UpperBound == \A c \in Counters : Persisted(c) + EX(st[c]) <= begun[c]
-(* once the calls have returned: equality, and no reader left behind *)
+(* once the calls have returned: equality (below the saturation limit), and no reader left behind *)
+NoWrap == \A c \in Counters : Persisted(c) <= MaxCell /\ EX(st[c]) <= MaxExtra
 Quiescent == AllReturned => \A c \in Counters : Persisted(c) + EX(st[c]) = begun[c] /\ R(st[c]) = 0
 (* once a file is open and all calls have returned nothing remains unpersisted *)
 Flushed == (AllReturned /\ cur # 0) => \A c \in Counters : EX(st[c]) = 0
